@@ -105,6 +105,7 @@ def check_rejects(acc, lib, f, seg, r):
     """S outside [0, 4^(r-1)) must raise, never silently give an id"""
     ser, origins, A5Cell = lib
     for S in (4 ** (r - 1), 4 ** (r - 1) + 1, 1 << 58, (1 << 64) - 1):
+      for attempt in (1, 2):           # every rejected request is repeated at once (a caller's retry): it must be rejected again
         acc.n['states'] += 1
         try:
             idv = ser.serialize(A5Cell(origin=origins[f], segment=seg, S=S, resolution=r))
@@ -116,7 +117,8 @@ def check_rejects(acc, lib, f, seg, r):
         except Exception as e:
             acc.violation(f'reject-wrong-exc:r={r}:S={S}', f'out-of-range S raised {e!r} instead of ValueError', {'f': f, 'seg': seg, 'S': S, 'r': r, 'reject': True})
             continue
-        acc.violation(f'reject-silent:r={r}:f={f}:seg={seg}:S={S}', f'S={S} does not fit resolution {r} but serialize returned {idv:#x}', {'f': f, 'seg': seg, 'S': S, 'r': r, 'reject': True})
+        acc.violation(f'reject-silent:r={r}:f={f}:seg={seg}:S={S}' + (':retry' if attempt == 2 else ''),
+                      f'S={S} does not fit resolution {r} but serialize returned {idv:#x}' + (' when the rejected request was repeated' if attempt == 2 else ''), {'f': f, 'seg': seg, 'S': S, 'r': r, 'reject': True})
 
 
 def work_exhaustive(task):
